@@ -805,6 +805,28 @@ func (c *Ctx) isOwnDecoration(v ssa.Value, wrapper ssa.Value, d decorator) bool 
 	}
 	if a, ok := v.(*ssa.Alloc); ok {
 		n := 0
+		// a copy of a struct-typed decoration field taken as a whole (source := s.source; return &source)
+		whole := 0
+		for _, ref := range core.Referrers(a) {
+			if st, isSt := ref.(*ssa.Store); isSt && st.Addr == ssa.Value(a) {
+				root, pth := pathOf(core.Strip(st.Val))
+				if root != wrapper || pth == "" || strings.Contains(pth, "[]") || strings.HasPrefix(pth, "."+d.cause) {
+					return false
+				}
+				whole++
+			}
+		}
+		if whole == 1 {
+			onlyThat := true
+			for _, ref := range core.Referrers(a) {
+				if _, isFA := ref.(*ssa.FieldAddr); isFA {
+					onlyThat = false
+				}
+			}
+			if onlyThat {
+				return true
+			}
+		}
 		for _, ref := range core.Referrers(a) {
 			fa, ok := ref.(*ssa.FieldAddr)
 			if !ok {
